@@ -56,7 +56,7 @@ use nohash_hasher::BuildNoHashHasher;
 // ------------------------------------------------------------
 
 pub use crate::ser_error::Error;
-use crate::ser_quoting::{is_plain_safe, is_plain_value_safe};
+use crate::ser_quoting::{has_trailing_whitespace, is_plain_safe, is_plain_value_safe};
 
 /// Result alias.
 pub type Result<T> = std::result::Result<T, Error>;
@@ -688,7 +688,7 @@ impl<'a, W: Write> YamlSerializer<'a, W> {
             } else {
                 self.write_single_quoted(s)
             }
-        } else if is_plain_safe(s) {
+        } else if is_plain_safe(s) && !has_trailing_whitespace(s) {
             self.out.write_str(s)?;
             Ok(())
         } else {
@@ -746,7 +746,9 @@ impl<'a, W: Write> YamlSerializer<'a, W> {
             } else {
                 self.write_single_quoted(s)
             }
-        } else if is_plain_value_safe(s, self.yaml_12, self.in_flow > 0) {
+        } else if is_plain_value_safe(s, self.yaml_12, self.in_flow > 0)
+            && !has_trailing_whitespace(s)
+        {
             self.out.write_str(s)?;
             Ok(())
         } else {
@@ -2837,7 +2839,10 @@ impl<'a> Serializer for &'a mut KeyScalarSink<'a> {
         // like y/n/yes/no) to preserve intended string keys.
         // Be conservative here: keys may be emitted in both block and flow mappings,
         // and flow mappings treat characters like ','/[]/{} as structural.
-        if is_plain_safe(v) && is_plain_value_safe(v, self.yaml_12, true) {
+        if is_plain_safe(v)
+            && is_plain_value_safe(v, self.yaml_12, true)
+            && !has_trailing_whitespace(v)
+        {
             self.s.push_str(v);
         } else {
             self.s.push('"');
